@@ -2,7 +2,7 @@
 import threading
 from typing import List
 
-from glom import (glom, T, S, A, Val, Coalesce, Fill, Match, Spec, Call, GlomError, PathAccessError, Path, Iter, Sum)
+from glom import (glom, T, S, A, Val, Coalesce, Fill, Match, Spec, Call, Invoke, GlomError, PathAccessError, Path, Iter, Sum)
 from glom.grouping import Group
 import glom.core as gc
 
@@ -23,7 +23,7 @@ META = {
                    'evaluations deliberately share module state (same path strings, cold Path cache and registry memo).',
     'bounds': {
         'quick': {'re-entrant nesting depth': 3, 'call pool': 11, 'threads': 2, 'yield points per evaluation': '<= 4', 'schedule vector length': 8,
-                  'shared spec objects': '5 kinds (Spec.glom scope=, Spec with own scope, Vars(), Vars(base), Vars(**defaults)) x {A then B, B then A, B nested in A, B in another thread while A is parked}'},
+                  'shared spec objects': '8 kinds (Spec.glom scope=, Spec with own scope, Vars(), Vars(base), Vars(**defaults), empty list / dict literals in argument position, two error classes sharing a __name__) x {A then B, B then A, B nested in A, B in another thread while A is parked}'},
         'thorough': {'threads': 3, 'schedule vector length': 10},
     },
     'stubs': ['S6: worker threads run untraced (only the schedule is symbolic; data inside workers is concrete)', 'S4 state reset'],
@@ -252,6 +252,15 @@ class YieldingF:
 
 
 # ---- ONE spec object shared by two evaluations: nothing one evaluation binds or accumulates is seen by the other -----
+def _mk_err(tag):
+    class Timeout(Exception):              # two libraries' error classes with the same __name__
+        origin = tag
+    return Timeout
+
+
+ERR_A, ERR_B = _mk_err('a'), _mk_err('b')
+
+
 class Gate:
     """user callable inside the shared spec; when armed it runs the OTHER evaluation (nested) or parks the thread"""
     def __init__(self):
@@ -267,7 +276,7 @@ class Gate:
         return '<gate>'
 
 
-N_SHARED = 5
+N_SHARED = 8
 
 
 def _shared(kind, gate, x, y):
@@ -285,6 +294,28 @@ def _shared(kind, gate, x, y):
     if kind == 3:       # Vars with a base mapping
         sp = (S(c=Vars({'n': 0})), [(gate, A.c.n)], S.c.n)
         return (lambda: glom([x, y], sp)), (lambda: glom([], sp))
+    if kind == 5:       # an EMPTY list literal in argument position is a fresh list in every evaluation
+        sp = (S(seen=[]), [(gate, Invoke(list.append).specs(S['seen'], T))], S['seen'])
+        return (lambda: glom([x, y], sp)), (lambda: glom([], sp))
+    if kind == 6:       # ... also as a default the caller then appends to
+        sp = (gate, Coalesce('zz', default={}))
+
+        def use(t, k):
+            r = glom(t, sp)
+            before = dict(r)
+            r[k] = 1
+            return before
+        return (lambda: use({'t': 1}, 'touched-by-a')), (lambda: use({'t': 2}, 'touched-by-b'))
+    if kind == 7:       # two application error classes sharing a __name__, each raised in its own call
+        def call(cls, with_gate):
+            def raiser(t):
+                raise cls(t)
+            try:
+                glom(1, (gate, raiser) if with_gate else raiser)
+            except GlomError as e:
+                return ('raised', type(e).__name__, isinstance(e, ERR_A), isinstance(e, ERR_B), getattr(e, 'origin', None))
+            return 'no error'
+        return (lambda: call(ERR_A, True)), (lambda: call(ERR_B, False))
     # Vars with keyword defaults
     sp = (S(c=Vars(n=0, m=y)), [(gate, A.c.n)], S.c, dict)
     return (lambda: glom([x], sp)), (lambda: glom([], sp))
